@@ -1023,27 +1023,27 @@ def case_addunits(ctx, case):
 
 
 def _voxel_volume(ctx, case, h, y, raw, q, what):
-    """VoxelNeuron.volume: number of voxels × voxel volume, a quantity of dimension length^3 either way"""
+    """VoxelNeuron.volume: number of voxels × x × y × z voxel size, a quantity of dimension length^3 with and without
+    config.add_units (regression cases of navis b141c1f: y ignored, z twice; afa4901: units applied a second time)"""
     u = y.units_xyz
     e = h.unit_exp(u.units)
     if e == 'D':
         return
     vx = [float(m) * 10.0 ** e for m in u.magnitude]
     want = float(y.nnz) * vx[0] * vx[1] * vx[2]
-    aniso_y = abs(vx[1] - vx[2]) > 1e-30
-    for label, val, sig_extra in (('config.add_units=False', raw, None), ('config.add_units=True', q, 'units-applied-twice')):
+    for label, val in (('config.add_units=False', raw), ('config.add_units=True', q)):
         if not isinstance(val, pint.Quantity):
             ctx.oracle(False, f'{what} [{label}] = {val!r}: not a quantity', case)
             continue
         mags, dim = _base_mag3(val)
-        sig = None
-        if dim != {'[length]': 3} and label.endswith('True'):
-            sig = 'VoxelNeuron.volume/add_units/units-applied-twice'
-        elif aniso_y:
-            sig = 'VoxelNeuron.volume/per-axis-units/y-axis-ignored'
+        ldim = dim.get('[length]', 0) if set(dim) <= {'[length]'} else -1
+        ans = h.kv(ctx.ask(f"c15.voxvol 30 {int(y.nnz)} {max(int(ldim), 0)} | {h.units_wire(y)} | {h.rs(mags[0])}"))
         ok = dim == {'[length]': 3} and close([float(mags[0])], [want], rel=1e-6)
-        ctx.oracle(ok, f'VoxelNeuron.volume [{label}] = {val!r} (units {y.units!r}, {y.nnz} voxels): expected {want} m^3 '
-                       f'(nnz × x × y × z voxel size), got {float(mags[0])} with dimension {dim}', case, signature=sig)
+        ctx.oracle(ok and ans.get('ok') == '1',
+                   f'VoxelNeuron.volume [{label}] = {val!r} (units {y.units!r}, {y.nnz} voxels): expected {want} m^3 '
+                   f'(nnz × x × y × z voxel size; Lean voxelVolume = {ans.get("model")}), got {float(mags[0])} with dimension {dim}', case)
+    if isinstance(raw, pint.Quantity) and isinstance(q, pint.Quantity):
+        ctx.oracle(_base_mag3(raw) == _base_mag3(q), f'VoxelNeuron.volume depends on config.add_units: {raw!r} vs {q!r}', case)
 
 
 def gen_addunits(r, i):
